@@ -113,6 +113,7 @@ func (ca *CA) Issue(o CertOpts) (*Cert, error) {
 
 // DaemonOpts configures one real dirk daemon.
 type DaemonOpts struct {
+	Race bool // run the daemon binary built with -race (see RaceDirkBin)
 	Dir         string
 	ID          uint64
 	IP          string // 127.0.0.x
@@ -247,9 +248,16 @@ func PrepareDaemon(o DaemonOpts) (*Daemon, error) {
 
 // Start launches the daemon and waits until it accepts TCP connections.
 func (d *Daemon) Start() error {
-	args := append(append([]string{}, d.Opts.Wrapper...), DirkBin(), "--base-dir", d.Opts.Dir)
+	bin := DirkBin()
+	env := d.Opts.Env
+	if d.Opts.Race {
+		// The daemon built with the race detector; reports go to <dir>/race.<pid> and do not stop it.
+		bin = RaceDirkBin()
+		env = append(append([]string{}, env...), "GORACE=halt_on_error=0 log_path="+filepath.Join(d.Opts.Dir, "race"))
+	}
+	args := append(append([]string{}, d.Opts.Wrapper...), bin, "--base-dir", d.Opts.Dir)
 	d.Cmd = exec.Command(args[0], args[1:]...)
-	d.Cmd.Env = append(os.Environ(), d.Opts.Env...)
+	d.Cmd.Env = append(os.Environ(), env...)
 	lf, err := newCappedLog(d.LogPath, 64<<20)
 	if err != nil {
 		return err
